@@ -52,6 +52,26 @@ def observe(lib, cases):
     for c in cases:
         h = F.Harnessed(lib, c['env'])
         text = F.render(c['ast'])
+        if c.get('unsub'):
+            # a host object's methods were subscribed and unsubscribed again before the evaluation: as if they never had been
+            class Gone(object):
+                def cell(self, cell, setter):
+                    setter(424242)
+
+                def rng(self, a, b, setter):
+                    setter([[424242]])
+
+                def var(self, name, setter):
+                    setter(424242)
+
+                def fn(self, name, args, setter):
+                    setter(424242)
+            g = Gone()
+            for ev, m, how in (('callCellValue', 'cell', 'on'), ('callRangeValue', 'rng', 'once'), ('callVariable', 'var', 'on'),
+                               ('callFunction', 'fn', 'once')):
+                getattr(h.p, how)(ev, getattr(g, m))
+            for ev, m in (('callCellValue', 'cell'), ('callRangeValue', 'rng'), ('callVariable', 'var'), ('callFunction', 'fn')):
+                h.p.off(ev, getattr(g, m))
         if c.get('nest'):
             # every listener, after handing its values to the setter, evaluates another formula on the same
             # parser (a sheet following a formula cell, a validation rule): "whatever the listeners do"
@@ -64,6 +84,7 @@ def observe(lib, cases):
             h.hooks = {k: nested for k in ('cell:post', 'range:post', 'var:post', 'fn:post')}
         o = h.parse(text, again=len(obs) % 4 == 3)
         o.update({'id': len(obs) + 1, 'ast': c['ast'], 'env': c['env'], 'formula': text, 'nest': bool(c.get('nest')),
+                  'unsub': bool(c.get('unsub')),
                   'checks': ['events', 'calls'] if array_meets_array(c['ast'], c['env']) else ['value', 'events', 'calls']})
         obs.append(o)
     return obs
@@ -160,7 +181,7 @@ def main(tier, replay=None):
     run.assumptions = ['listeners return normally (a third of them after evaluating another formula on the same parser)', 'labels have positive rows without leading zeros']
     if replay:
         c = json.load(open(replay))['case']
-        obs = observe(lib, [{'ast': c['ast'], 'env': c['env'], 'nest': c.get('nest')}])
+        obs = observe(lib, [{'ast': c['ast'], 'env': c['env'], 'nest': c.get('nest'), 'unsub': c.get('unsub')}])
         v = core.validate_obs(run, 'Trace_Eval', obs, 'replay', consts)
         core.tally(run, obs, v, 'c10', key=lambda o: o['formula'] + json.dumps(o['env'], sort_keys=True))
         return run.finish()
@@ -177,6 +198,7 @@ def main(tier, replay=None):
     cases += [rand_case(rng) for _ in range(4000 if quick else 80000)]
     for i, c in enumerate(cases):
         c['nest'] = i % 3 == 1
+        c['unsub'] = i % 5 == 2
     obs = observe(lib, cases)
     run.extra['with_nested_evaluation_in_listeners'] = sum(1 for o in obs if o['nest'])
     CH = 25000
